@@ -28,6 +28,9 @@ func (e *Exec) envIntrinsic(caller *frame, name string, args []Value) (Value, bo
 			z.(Structure)[fieldIndex(st, "origSpec")] = args[0]
 		}
 		e.run.noteStub("loads.Document: harness-built, Spec() returns the harness's *spec.Swagger")
+		if sw, ok := args[0].(*Value); ok {
+			e.lastSwagger = sw
+		}
 		return &z, true
 	case "verifNewAnalyzer":
 		at := e.prog.ImportedPackage("github.com/go-openapi/analysis").Type("Spec").Type()
@@ -39,6 +42,13 @@ func (e *Exec) envIntrinsic(caller *frame, name string, args []Value) (Value, bo
 		am := &analysisModel{ops: args[0].(*Map)}
 		e.analyzers[p] = am
 		e.lastAnalyzer = p
+		if e.lastSwagger != nil { // the analyser registered right after a document is that document's
+			if e.swAnalyzer == nil {
+				e.swAnalyzer = map[*Value]*Value{}
+			}
+			e.swAnalyzer[e.lastSwagger] = p
+			e.lastSwagger = nil
+		}
 		e.run.noteStub("analysis.Spec: operations index supplied by the harness (Operations, OperationFor, SafeParamsFor, ParamsFor, OperationIDs)")
 		return p, true
 	}
@@ -92,6 +102,11 @@ func registerEnvStubs() {
 	}
 	externals["github.com/go-openapi/analysis.New"] = func(e *Exec, c *frame, a []Value) Value {
 		// contract: the analyser of the harness's document is the one the harness registered
+		if sw, ok := a[0].(*Value); ok {
+			if p, ok := e.swAnalyzer[sw]; ok {
+				return p
+			}
+		}
 		if e.lastAnalyzer == nil {
 			panic(abort("analysis.New without a harness-registered analyser model"))
 		}
@@ -105,8 +120,26 @@ func registerEnvStubs() {
 		}
 	}
 	externals["(*github.com/go-openapi/loads.Document).Expanded"] = func(e *Exec, c *frame, a []Value) Value {
-		e.run.noteStub("loads.Document.Expanded: the reference-free document itself")
-		return Tuple{a[0], Iface{}}
+		// contract: a deep copy of the (reference-free) document, with its own analyser over the copy
+		e.run.noteStub("loads.Document.Expanded: a deep copy of the reference-free document, analysed by a copy of the harness's operations index")
+		doc := a[0].(*Value)
+		lt := e.prog.ImportedPackage("github.com/go-openapi/loads").Type("Document").Type()
+		st := lt.Underlying().(*types.Struct)
+		sw, _ := (*doc).(Structure)[fieldIndex(st, "spec")].(*Value)
+		am, ok := e.analyzers[e.swAnalyzer[sw]]
+		if sw == nil || !ok {
+			return Tuple{a[0], Iface{}} // no analyser model registered for this document: the document itself
+		}
+		cl := &cloner{e: e, p: map[*Value]*Value{}, m: map[*Map]*Map{}}
+		nd := cl.clone(*doc)
+		nsw := nd.(Structure)[fieldIndex(st, "spec")].(*Value)
+		at := e.prog.ImportedPackage("github.com/go-openapi/analysis").Type("Spec").Type()
+		az := zero(at)
+		ap := &az
+		e.analyzers[ap] = &analysisModel{ops: cl.clone(am.ops).(*Map), sw: nsw}
+		e.swAnalyzer[nsw] = ap
+		nd.(Structure)[fieldIndex(st, "Analyzer")] = ap
+		return Tuple{&nd, Iface{}}
 	}
 	externals["encoding/json.Unmarshal"] = func(e *Exec, c *frame, a []Value) Value {
 		e.run.noteStub("json.Unmarshal(doc.Raw()): yields an empty JSON object (the harness's Swagger schema is the empty schema)")
@@ -319,6 +352,97 @@ func (e *Exec) deepCopy(v Value, seen map[*Value]*Value) Value {
 			return x
 		}
 		return Iface{T: x.T, V: e.deepCopy(x.V, seen)}
+	}
+	return v
+}
+
+
+// cloner deep-copies a value graph (pointers, maps, slices, aggregates), keeping sharing.
+type cloner struct {
+	e *Exec
+	p map[*Value]*Value
+	m map[*Map]*Map
+}
+
+func (cl *cloner) clone(v Value) Value {
+	switch x := v.(type) {
+	case *Value:
+		if x == nil {
+			return x
+		}
+		if y, ok := cl.p[x]; ok {
+			return y
+		}
+		ny := new(Value)
+		cl.p[x] = ny
+		*ny = cl.clone(*x)
+		return ny
+	case Structure:
+		out := make(Structure, len(x))
+		for i := range x {
+			cl.p[&x[i]] = &out[i]
+		}
+		for i := range x {
+			out[i] = cl.clone(x[i])
+		}
+		return out
+	case Array:
+		out := make(Array, len(x))
+		for i := range x {
+			cl.p[&x[i]] = &out[i]
+		}
+		for i := range x {
+			out[i] = cl.clone(x[i])
+		}
+		return out
+	case []Value:
+		if x == nil {
+			return x
+		}
+		out := make([]Value, len(x), cap(x))
+		for i := range x {
+			cl.p[&x[i]] = &out[i]
+		}
+		for i := range x {
+			out[i] = cl.clone(x[i])
+		}
+		return out
+	case *Map:
+		if x == nil {
+			return x
+		}
+		if y, ok := cl.m[x]; ok {
+			return y
+		}
+		cl.e.mapSeq++
+		nm := &Map{KT: x.KT, VT: x.VT, id: cl.e.mapSeq}
+		cl.m[x] = nm
+		nm.Keys = make([]Value, len(x.Keys))
+		nm.Vals = make([]Value, len(x.Vals))
+		for i := range x.Keys {
+			nm.Keys[i] = cl.clone(x.Keys[i])
+			nm.Vals[i] = cl.clone(x.Vals[i])
+		}
+		if x.Conds != nil {
+			nm.Conds = append([]*Term{}, x.Conds...)
+		}
+		return nm
+	case Iface:
+		if x.T == nil {
+			return x
+		}
+		return Iface{T: x.T, V: cl.clone(x.V)}
+	case RValue:
+		if x.T == nil {
+			return x
+		}
+		return RValue{T: x.T, V: cl.clone(x.V)}
+	case Tuple:
+		out := make(Tuple, len(x))
+		for i := range x {
+			out[i] = cl.clone(x[i])
+		}
+		return out
 	}
 	return v
 }
